@@ -366,7 +366,8 @@ pub(crate) fn extract_code_block_start(line: &str) -> Option<(&str, &str, &str)>
                 ));
             }
         } else if ch != '`' {
-            if index < 2 {
+            // a code fence consists of at least three backticks
+            if index < 3 {
                 return None;
             }
             language_start = Some(index);
